@@ -530,8 +530,8 @@ pub fn hide(a: AVP, secret: &[u8], rv: [u8; 4], lp: &[u8], ap: &[u8; 16]) -> Res
 
 pub fn reveal(a: AVP, secret: &[u8], rv: [u8; 4]) -> Out<SAvp> {
     let secret: Box<[u8]> = secret.into();
-    match catch(move || a.reveal(&secret, &t::RandomVector { value: rv })) {
-        Ended::Returned(Ok(v)) => Out::Ok(glue::avp_to_spec(&v)),
+    match catch(move || a.reveal(&secret, &t::RandomVector { value: rv }).map(|v| glue::avp_to_spec(&v))) {
+        Ended::Returned(Ok(v)) => Out::Ok(v),
         Ended::Returned(Err(e)) => Out::Err(vec![e]),
         Ended::Panicked(p) => Out::Panic(p),
         Ended::StepBudget => unreachable!(),
@@ -641,4 +641,103 @@ pub fn hidden_spare(attr: u16, value: &[u8], spare: usize) -> AVP {
     let mut v = Vec::with_capacity(value.len() + spare);
     v.extend_from_slice(value);
     AVP::Hidden(t::Hidden { attribute_type: attr, value: v })
+}
+
+
+/// Thread environments nothing in the API forbids: the call is made on a fresh thread with a
+/// modest stack, once in the thread's body and again from the destructors of two thread-locals
+/// of the application while the thread is being torn down - one registered before the body call
+/// and one after it, so that whatever order the platform runs destructors in, one of the two
+/// runs after any thread-local the codec itself may have created during the body call.
+pub mod threadenv {
+    use std::cell::RefCell;
+    use std::sync::mpsc;
+
+    struct RunAtExit(Option<Box<dyn FnOnce()>>);
+    impl Drop for RunAtExit {
+        fn drop(&mut self) {
+            if let Some(f) = self.0.take() {
+                let _ = std::panic::catch_unwind(std::panic::AssertUnwindSafe(f));
+            }
+        }
+    }
+    thread_local! {
+        static BEFORE: RefCell<RunAtExit> = RefCell::new(RunAtExit(None));
+        static AFTER: RefCell<RunAtExit> = RefCell::new(RunAtExit(None));
+    }
+
+    pub struct ThreadRun<R> {
+        /// result of the call in the thread's body (None: the thread died)
+        pub body: Option<R>,
+        /// results of the calls made from the two destructors, in the order they ran
+        pub teardown: Vec<R>,
+        /// deepest extent of the thread's stack touched by the body call, in octets
+        pub stack_used: usize,
+    }
+
+    /// stack painting is only done in the plain native builds (the worker switches it on): the
+    /// sanitizer runtimes keep their own view of the stack
+    pub static MEASURE: std::sync::atomic::AtomicBool = std::sync::atomic::AtomicBool::new(false);
+    pub const STACK: usize = 256 * 1024;
+    const PAINT: usize = 192 * 1024;
+    const PATTERN: u8 = 0xa7;
+
+    /// Fill the unused stack below this frame with a pattern, run `f`, and report how far down
+    /// the pattern was disturbed. Native builds only (it writes below the stack pointer, beyond
+    /// the red zone, inside the thread's own stack mapping).
+    #[inline(never)]
+    fn measured<R>(f: impl FnOnce() -> R) -> (R, usize) {
+        if cfg!(miri) || !MEASURE.load(std::sync::atomic::Ordering::Relaxed) {
+            return (f(), 0);
+        }
+        let marker = 0u8;
+        let top = (&marker as *const u8 as usize) - 1024; // leave this frame and the red zone alone
+        let bottom = top - PAINT;
+        unsafe {
+            let mut p = bottom;
+            while p < top {
+                std::ptr::write_volatile(p as *mut u8, PATTERN);
+                p += 1;
+            }
+        }
+        let r = f();
+        let mut used = 0;
+        unsafe {
+            let mut p = bottom;
+            while p < top {
+                if std::ptr::read_volatile(p as *const u8) != PATTERN {
+                    used = top - p + 1024;
+                    break;
+                }
+                p += 1;
+            }
+        }
+        (r, used)
+    }
+
+    pub fn run<R: Send + 'static>(f: impl Fn() -> R + Send + Sync + 'static) -> ThreadRun<R> {
+        let f = std::sync::Arc::new(f);
+        let (tx, rx) = mpsc::channel::<R>();
+        let (btx, brx) = mpsc::channel::<(R, usize)>();
+        let h = std::thread::Builder::new()
+            .stack_size(STACK)
+            .spawn({
+                let f = f.clone();
+                move || {
+                    let (f1, tx1) = (f.clone(), tx.clone());
+                    BEFORE.with(|g| g.borrow_mut().0 = Some(Box::new(move || drop(tx1.send(f1())))));
+                    let (r, used) = measured(|| f());
+                    let _ = btx.send((r, used));
+                    let (f2, tx2) = (f.clone(), tx.clone());
+                    AFTER.with(|g| g.borrow_mut().0 = Some(Box::new(move || drop(tx2.send(f2())))));
+                }
+            })
+            .expect("spawn");
+        let _ = h.join();
+        let (body, stack_used) = match brx.try_recv() {
+            Ok((r, u)) => (Some(r), u),
+            Err(_) => (None, 0),
+        };
+        ThreadRun { body, teardown: rx.try_iter().collect(), stack_used }
+    }
 }
